@@ -101,16 +101,34 @@ def run_impl(case):
             from fcapy.lattice import ConceptLattice
             K = FormalContext(data=[list(r) for r in case['table']])
             kw = {} if case['algo'] is None else {'algo': case['algo']}
-            p = ConceptLattice.from_context(K, **kw)
+            ckw = dict(case.get('ctx_kwargs') or {})      # pruning parameters (min_supp, L_max)
             ids = {tuple(e): k for k, e in enumerate(case['extents'])}
             key = lambda c: tuple(sorted(c.extent_i))     # noqa
+            try:
+                p = ConceptLattice.from_context(K, **kw, **ckw)
+            except Exception as e:  # noqa
+                # from_context refused: hand the concept list of the same miner to the model, which
+                # says whether the batch constructor accepts it (unique top and bottom)
+                try:
+                    from fcapy.algorithms import concept_construction as cca
+                    cl = ConceptLattice.sort_concepts(cca.sofia(K, **ckw) if case['algo'] == 'Sofia'
+                                                      else cca.close_by_one(K))
+                    lst = [ids.get(key(c), 900 + i) for i, c in enumerate(cl)]
+                except Exception:  # noqa
+                    lst = [len(case['extents']) - 1, 0]
+                return [PL.out_term(PL._x(e)), '[]', '[]', lst, []]
             objs = {ids.get(key(c), 900 + i): c for i, c in enumerate(p.elements)}
             init = [ids.get(key(c), 900 + i) for i, c in enumerate(p.elements)]
             # some concepts are handed over as re-created, equal objects with a permuted extent listing
             perm = [int(x) for x in case.get('listing', {}).get('perm', {})]
-            objs.update(_concept_objects(case, only=set(perm)))
-            if sorted(init) != list(range(len(case['extents']))):
-                ops = []                                  # not the full concept set (e.g. Sofia's limit): no history
+            absent = [x for x in range(len(case['extents'])) if x not in init]
+            objs.update(_concept_objects(case, only=set(perm) | set(absent)))
+            if case.get('seed') is not None:
+                # a pruned concept family: the history is drawn here, once the family is known
+                import random
+                ops = ctx_history(random.Random(case['seed']), case['matrix'], init)
+            elif sorted(init) != list(range(len(case['extents']))):
+                ops = []                                  # not the full concept set: no history
             enc = lambda e: objs[e]                       # noqa
             dec = lambda o: ids.get(tuple(sorted(o.extent_i)), 999)   # noqa
             mk_other = lambda els, oc: ConceptLattice(els)   # noqa
@@ -340,6 +358,60 @@ def concept_case(rng, max_concepts, min_concepts=3, dim=4, want_nongraded=False)
                                                              'concepts-large-nongraded')}
 
 
+def ctx_history(rng, m, init):
+    """History on a lattice whose concept family `init` (carrier ids in the object's order) became
+    known only at run time: first == against the batch lattice of the SAME concept list, then
+    removals, re-insertions, insertions of concepts the pruning left out, queries."""
+    k = len(m)
+    cur = list(init)
+    ops = [['eq', list(init), True], ['top'], ['bot']]
+    out = []
+
+    def do(o):
+        nonlocal cur
+        ops.append(o)
+        cur = list(sim(m, 'B', cur, o)[0])          # the cache-free meaning, refusals included
+    for _ in range(rng.randint(2, 5)):
+        ext = {cur[extremes(m, cur, up)[0]] for up in (True, False)}
+        inner = [x for x in cur if x not in ext]
+        out = [x for x in out if x not in cur]
+        absent = [x for x in range(k) if x not in cur and x not in out]
+        r = rng.random()
+        if r < 0.1:
+            do(['rm', rng.choice(sorted(ext))])                          # refused
+        elif r < 0.55 and inner:
+            e = rng.choice(inner)
+            do(['rm', e] if rng.random() < 0.6 else ['del', cur.index(e)])
+            out.append(e)
+        elif r < 0.8 and out:
+            do(['add', out.pop(rng.randrange(len(out))), rng.random() < 0.5])
+        elif absent:
+            do(['add', rng.choice(absent), rng.random() < 0.6])          # a concept the pruning left out
+        n = len(cur)
+        for _ in range(rng.randint(0, 2)):
+            i = rng.randrange(n)
+            ops.append(rng.choice([['cv', True, i], ['cv', False, i], ['cl', True, i], ['cl', False, i],
+                                   ['leq', i, rng.randrange(n)]]))
+    ops += [['ex', True], ['ex', False], ['top'], ['bot']]
+    return ops
+
+
+def pruned_case(rng):
+    """from_context with pruning parameters (Sofia with a support threshold and/or a binding
+    L_max): the concept family is in general not closed under intersection."""
+    base = concept_case(rng, 16, min_concepts=5, dim=rng.choice([4, 5, 6]))
+    k = len(base['matrix'])
+    ckw = {}
+    if rng.random() < 0.8:
+        ckw['min_supp'] = rng.choice([1, 2, 2, 3, 0.3])
+    if rng.random() < 0.4 or not ckw:
+        ckw['L_max'] = rng.choice([3, 4, 5, 6])
+    return {'matrix': base['matrix'], 'kind': 'B', 'init': list(range(k)), 'cache': True, 'cd': False,
+            'ops': [], 'level': 'fromctx', 'algo': 'Sofia', 'ctx_kwargs': ckw, 'seed': rng.randrange(2 ** 30),
+            'table': base['table'], 'extents': base['extents'], 'intents': base['intents'],
+            'okind': 'from_context-pruned'}
+
+
 def add_listing(rng, case):
     """A random subset of the concepts is (re-)created with a permuted extent listing."""
     perm = {}
@@ -403,7 +475,7 @@ def generate(rng, tier):
         n_ctx = 4000
     else:
         n_hist, n_ctor, n_conc, max_ops, max_conc, n_big = 1300, 150, 240, 12, 8, 40
-        n_ctx = 240
+        n_ctx = 200
     for _ in range(n_hist):
         cases.append(poset_case(rng, max_ops))
     for _ in range(n_ctor):
@@ -414,6 +486,8 @@ def generate(rng, tier):
         cases.append(listed(concept_case(rng, max_conc)))
     for i in range(n_ctx):        # start states built by from_context, < 10 and >= 10 concepts
         cases.append(listed(fromctx_case(rng, big=(i % 4 == 3))))
+    for i in range(n_ctx // 2):   # from_context with pruning parameters (non-intersection-closed families)
+        cases.append(listed(pruned_case(rng)))
     for i in range(n_big):        # larger lattices: 10-16 concepts, two thirds of them not graded
         cases.append(listed(concept_case(rng, 16, min_concepts=10, dim=6, want_nongraded=(i % 3 != 0))))
     return cases
@@ -442,7 +516,8 @@ def nontrivial(case):
 def stats(case):
     acc, ref = _refusals(case)
     return {'class': case['kind'] if case.get('level') not in ('concept', 'fromctx') else
-            ('ConceptLattice' if case.get('level') == 'concept' else 'ConceptLattice.from_context(%s)' % case.get('algo')),
+            ('ConceptLattice' if case.get('level') == 'concept' else 'ConceptLattice.from_context(%s%s)' % (
+                case.get('algo'), ', pruned' if case.get('ctx_kwargs') else '')),
             'has_nofill_readd': any(o[0] == 'add' and not o[2] for o in case['ops']),
             'extent_listing': (case['listing']['mode'] + ('-permuted' if case['listing']['perm'] else '')) if case.get('listing') else 'ascending',
             'order': case.get('okind', ''), 'carriers': len(case['matrix']), 'cache': case['cache'],
